@@ -24,6 +24,7 @@ import (
 	"strings"
 	"time"
 
+	"github.com/compose-spec/compose-go/v2/loader"
 	"github.com/compose-spec/compose-go/v2/paths"
 
 	"verifharness/core"
@@ -740,7 +741,93 @@ func init() {
 		},
 	})
 
+	// ---- correspondence: filepath.Rel / filepath.Dir and the local resource loader's Dir (the base-directory logic)
+	core.Register("c12.rel", &core.CheckDef{
+		Timeout: c12Timeout,
+		Real: func(raw json.RawMessage) any {
+			var a struct{ Base, Targ string }
+			json.Unmarshal(raw, &a)
+			res := map[string]any{"dir": filepath.Dir(a.Base), "rel": nil}
+			if r, err := filepath.Rel(a.Base, a.Targ); err == nil {
+				res["rel"] = r
+			}
+			return res
+		},
+		DriverOp: "c12.rel",
+	})
+	core.Register("c12.ldir", &core.CheckDef{
+		Timeout: c12Timeout,
+		Real: func(raw json.RawMessage) any {
+			var a ldirArgs
+			json.Unmarshal(raw, &a)
+			files := map[string]string{}
+			for _, d := range a.Dirs {
+				files[d+"/.keep"] = ""
+			}
+			for _, f := range a.Files {
+				files[f] = ""
+			}
+			root, err := core.Materialize(files)
+			defer os.RemoveAll(root)
+			if err != nil {
+				return map[string]any{"bad": err.Error()}
+			}
+			orig := strings.ReplaceAll(a.Orig, "$ROOT", root)
+			got := loader.VerifLocalLoaderDir(filepath.Join(root, a.Lw), orig)
+			return map[string]any{"dir": got, "root": root, "dirs": c12AllDirs(root)}
+		},
+		DriverOp: "c12.ldir",
+		DriverArgs: func(args, real json.RawMessage) any {
+			var a ldirArgs
+			json.Unmarshal(args, &a)
+			var r struct {
+				Root string   `json:"root"`
+				Dirs []string `json:"dirs"`
+			}
+			json.Unmarshal(real, &r)
+			return map[string]any{"lw": filepath.Join(r.Root, a.Lw), "orig": strings.ReplaceAll(a.Orig, "$ROOT", r.Root), "dirs": r.Dirs}
+		},
+		Judge: func(args, real, drv json.RawMessage) *core.Verdict {
+			if v := core.CrashVerdict(real); v != nil {
+				return v
+			}
+			var r, d struct {
+				Dir *string `json:"dir"`
+				Bad string  `json:"bad"`
+			}
+			if json.Unmarshal(real, &r) != nil || json.Unmarshal(drv, &d) != nil {
+				return core.Disagree("malformed exchange")
+			}
+			if r.Bad != "" {
+				return core.Skip(r.Bad)
+			}
+			if r.Dir == nil || d.Dir == nil || *r.Dir != *d.Dir {
+				return core.Disagree(fmt.Sprintf("Paths.loaderDir ≠ localResourceLoader.Dir: real %v, model %v", r.Dir, d.Dir))
+			}
+			return nil
+		},
+	})
+
 	core.RegisterProp("C12", runC12)
+}
+
+type ldirArgs struct {
+	Lw    string   `json:"lw"`    // loader working directory, relative to the temp root
+	Orig  string   `json:"orig"`  // the path handed to Dir ($ROOT = the temp root)
+	Dirs  []string `json:"dirs"`  // directories that exist
+	Files []string `json:"files"` // files that exist
+}
+
+func c12AllDirs(root string) []string {
+	var l []string
+	filepath.Walk(root, func(p string, info os.FileInfo, err error) error {
+		if err == nil && info.IsDir() {
+			l = append(l, p)
+		}
+		return nil
+	})
+	sort.Strings(l)
+	return l
 }
 
 type symlinkArgs struct {
@@ -1123,6 +1210,44 @@ func runC12(ctx *core.Ctx) {
 		ctx.Count("random-string")
 	}
 
+	// filepath.Rel / Dir: exhaustive over {/ . x y} (pairs), then the local loader's Dir on real directory trees
+	{
+		var all func(n int) []string
+		all = func(n int) []string {
+			l := []string{""}
+			prev := []string{""}
+			for i := 0; i < n; i++ {
+				var next []string
+				for _, p := range prev {
+					for _, a := range []string{"/", ".", "x", "y"} {
+						next = append(next, p+a)
+					}
+				}
+				l = append(l, next...)
+				prev = next
+			}
+			return l
+		}
+		ps := all(ctx.Pick(4, 5))
+		for _, b := range ps {
+			for _, t := range ps {
+				ctx.Add("c12.rel", map[string]string{"base": b, "targ": t})
+			}
+		}
+		ctx.Count("rel-exhaustive")
+		for i, n := 0, ctx.Pick(5000, 200000); i < n; i++ {
+			ctx.Add("c12.rel", map[string]string{"base": randPath(), "targ": randPath()})
+			ctx.Count("rel-random")
+		}
+		origs := []string{"sub/inc.yaml", "inc.yaml", "../sib/x.yaml", "sub", "sub/deep/", ".", "..", "missing/x.yaml", "$ROOT/p/sub/inc.yaml", "$ROOT/o/x.yaml",
+			"a//b/../c.yaml", "sub/deep/../inc.yaml", "../../x.yaml", "$ROOT/p", "$ROOT", "sub/file.yaml/x", "./sub/./inc.yaml", "é/x.yaml", "~/x.yaml", "C:/x.yaml"}
+		for _, lw := range []string{"p", "p/sub", "p/sub/..", "p/"} {
+			for _, o := range origs {
+				ctx.Add("c12.ldir", ldirArgs{Lw: lw, Orig: o, Dirs: []string{"p/sub/deep", "sib", "o", "p/é"}, Files: []string{"p/sub/inc.yaml", "p/inc.yaml", "p/sub/file.yaml"}})
+				ctx.Count("ldir")
+			}
+		}
+	}
 	for _, c := range c12SymlinkCases {
 		ctx.Add("c12.symlink", c)
 		ctx.Count("symlink:" + c.Name)
